@@ -160,6 +160,8 @@ class Validator:
                     if isinstance(props, dict):
                         if self.is_valid_for_version(props, version) is True:
                             valid_list.append(props)
+                            # an alternative can itself be an object (e.g. an inline SYMBOL in a STYLE)
+                            self.get_versioned_properties(props, version)
                     else:
                         valid_list.append(props)
                 properties[key] = valid_list
